@@ -150,6 +150,6 @@ def check(case):
 
 
 SUBCHECKS = [
-    Sub("distance", check, strategy=lambda tier: case_strategy(), quick=10000, thorough=300000,
+    Sub("distance", check, strategy=lambda tier: case_strategy(), quick=20000, thorough=1200000,
         min_share={"box:triclinic": 0.2, "box:rect": 0.2, "nontrivial": 0.3}),
 ]
